@@ -14,6 +14,7 @@ import (
 	_ "github.com/btcsuite/btcwallet/walletdb/bdb"
 	"github.com/btcsuite/btcwallet/walletdb/migration"
 
+	"verifharness/internal/core"
 	"verifharness/internal/gen"
 )
 
@@ -361,12 +362,8 @@ func min64(a, b int64) int64 {
 	return b
 }
 
-func init() {
-	commands["c19"] = func(args []string, out *emitter) error {
-		c, err := parseCommon("c19", args, nil)
-		if err != nil {
-			return err
-		}
+func main() {
+	core.Main("c19", nil, func(c *core.Common, out *core.Emitter) error {
 		dir, err := os.MkdirTemp("", "vh-c19-")
 		if err != nil {
 			return err
@@ -377,11 +374,11 @@ func init() {
 			if err != nil {
 				return err
 			}
-			out.emit(c19Case{In: in, Obs: obs, Oracle: append([]string{}, c19Oracle(in, obs)...), Tags: tags})
+			out.Emit(c19Case{In: in, Obs: obs, Oracle: append([]string{}, c19Oracle(in, obs)...), Tags: tags})
 			return nil
 		}
-		if c.replay != "" {
-			return readReplay(c.replay, func(raw json.RawMessage) error {
+		if c.Replay != "" {
+			return core.ReadReplay(c.Replay, func(raw json.RawMessage) error {
 				var cs struct {
 					In c19Input `json:"in"`
 				}
@@ -391,7 +388,7 @@ func init() {
 				return runOne(cs.In, []string{"replay"})
 			})
 		}
-		r := gen.New(c.seed, 19)
+		r := gen.New(c.Seed, 19)
 		// Systematic part: a failure injected at every position of a fixed
 		// unordered table, for every stored version around the range.
 		base := []c19Version{{5, "ok", 1}, {2, "nil", 2}, {9, "ok", 3}, {3, "ok", 4}, {7, "ok", 5}, {1, "ok", 6}}
@@ -410,12 +407,12 @@ func init() {
 				}
 			}
 		}
-		for i := 0; i < c.n; i++ {
+		for i := 0; i < c.N; i++ {
 			in, tags := c19Gen(r)
 			if err := runOne(in, tags); err != nil {
 				return err
 			}
 		}
 		return nil
-	}
+	})
 }
